@@ -5,8 +5,8 @@ LEVEL = "proof"
 META = {
     "level": "proof",
     "technique": "contract-based deductive verification: sidecar pre/postconditions, frames and loop invariants on the real functions, VCs generated from their AST, discharged by z3/cvc5",
-    "level_text": "_include_file, _kwargs_for_include, _lookup_template and the context-cleaning functions are verified: include arguments come from args first and context second, the includer's data is untouched, lookups are relative to the calling template.",
-    "level_note": 'Trusted: the pyvc encoding of Python semantics (DESIGN 3.1), z3/cvc5, assumed contracts listed in the evidence, the induction hypothesis for opaque render callables (R3). Native small-scope runs of the same contracts are bounded stand-ins, never counted as proved.',
+    "level_text": "_include_file, _kwargs_for_include, _lookup_template and the context-cleaning functions are verified: include arguments come from args first and context second, the includer's data is untouched, the context an included template's chain starts from carries none of the includer's self/parent/next (call-site precondition on _populate_self_namespace), lookups are relative to the calling template.",
+    "level_note": 'Trusted: the pyvc encoding of Python semantics (DESIGN 3.1), z3/cvc5, assumed contracts listed in the evidence, the induction hypothesis for opaque render callables (R3). Native small-scope runs of the same contracts and the include-from-an-inheriting-template grid are bounded stand-ins, never counted as proved.',
 }
 
 
